@@ -23,6 +23,11 @@ func ParseTimestamp(timestampStr string) (*timestamppb.Timestamp, error) {
 			return nil, err
 		}
 	}
+	// reject values outside the range the RFC3339 form can represent
+	// (years 0001 to 9999): they would not survive MarshalTimestamp.
+	if err := ts.CheckValid(); err != nil {
+		return nil, err
+	}
 	return ts, nil
 }
 
